@@ -70,6 +70,30 @@ PLAN = {
         explanation="ghost acks[m] counts ACK frames written by send_ack's direct send; process_message's postcondition: +1 for the sender exactly for SUBSCRIBE/UNSUBSCRIBE/PAUSE/RESUME and an accepted "
                     "handshake, 0 for everything else and for every other module; one copy per logger; order follows from frames of a connection being processed one at a time (FIFO assumption)"),
 }
+from .targets import CLIENT_C02, CLIENT_C08, CLIENT_C06, CLIENT_SIDECARS
+CLIENT_ASSUMPTIONS = [
+    "client side: a blocking send hands one frame to the manager, which processes a connection's frames in order (TCP FIFO); agreement is evaluated at quiescence",
+    "Client.__init__, Client._socket_connect and Client.disconnect are trusted contracts (socket set-up / tear-down), listed under assumed contracts",
+    "the body of a `with` on a context manager under contract is effect-free on the state the contract mentions and ends normally",
+    "message type ids are int32 values",
+]
+PLAN["C02"] = dict(
+    functions=dict(quick=CLIENT_C02 + _mgr("add_subscription", "remove_subscription"), thorough=CLIENT_C02 + _mgr("add_subscription", "remove_subscription", "process_message", "forward_message")),
+    sidecars=CLIENT_SIDECARS, assumptions=ENV_ASSUMPTIONS + CLIENT_ASSUMPTIONS,
+    explanation="ghost mgr_subs is the manager's view of the client's subscription set, advanced per control frame by add_step / remove_step - the functions proved to be exactly the effect of "
+                "MessageManager.add_subscription / remove_subscription; _subscription_control and every public wrapper preserve `agree` (mgr_subs == subscribed set) and the bookkeeping invariant, "
+                "refuse individual changes while subscribed to all without sending anything, and the two scoped contexts restore the entry sets on normal exit")
+PLAN["C08"] = dict(
+    functions=dict(quick=CLIENT_C08, thorough=CLIENT_C08),
+    sidecars=CLIENT_SIDECARS, assumptions=ENV_ASSUMPTIONS + CLIENT_ASSUMPTIONS + [
+        "the inbound byte stream is a sequence of well-formed frames (num_data_bytes >= 0) possibly cut by EOF at any byte; recv/recv_into with MSG_WAITALL return fewer bytes only at EOF",
+        "header byte-identity is stated for every field except recv_time, which the reader stamps by definition of the field",
+        "get_msg_cls(t) returns the class registered for t or raises UnknownMessageType"],
+    explanation="ghost cursor (frame index, offset) on the client socket; _read_message returns frame i with header fields and payload identity as sent and leaves the cursor at frame i+1, or raises the "
+                "documented error having consumed the whole frame, or ConnectionLost with the client disconnected; read_message only returns subscribed types (current set), ACK on request")
+PLAN["C06"]["functions"] = dict(quick=PLAN["C06"]["functions"]["quick"] + CLIENT_C06, thorough=MANAGER_ALL + CLIENT_C06)
+PLAN["C06"]["sidecars"] = CLIENT_SIDECARS
+PLAN["C06"]["assumptions"] = ENV_ASSUMPTIONS + CLIENT_ASSUMPTIONS
 for _p in PLAN.values():
     _p.setdefault("level", "proof")
     _p.setdefault("trusted_base", ["pyvc (ast -> VC generator written for this task)", "z3 5.1.0", "cvc5 1.0.3", "sidecar contracts in /verif/contracts"])
